@@ -251,13 +251,45 @@ func freshAddrShallow(v ssa.Value) bool {
 	return false
 }
 
+// isMutexOp: a static call of sync.(*Mutex|*RWMutex).{Lock,Unlock,RLock,RUnlock}.
+func isMutexOp(c *ssa.CallCommon) bool {
+	f := c.StaticCallee()
+	if f == nil || funcPkgPath(f) != "sync" {
+		return false
+	}
+	switch f.Name() {
+	case "Lock", "Unlock", "RLock", "RUnlock":
+		return true
+	}
+	return false
+}
+
+func onlyMutexDefers(f *ssa.Function) bool {
+	if f == nil {
+		return false
+	}
+	for _, b := range f.Blocks {
+		for _, in := range b.Instrs {
+			if d, ok := in.(*ssa.Defer); ok && !isMutexOp(&d.Call) {
+				return false
+			}
+		}
+	}
+	return true
+}
+
 func (a *Analyzer) instrEffectFree(in ssa.Instruction, assume map[*ssa.Function]bool) bool {
 	switch x := in.(type) {
 	case *ssa.Store:
 		return freshAddr(x.Addr)
 	case *ssa.MapUpdate:
 		return freshAddr(x.Map)
-	case *ssa.Send, *ssa.Go, *ssa.Defer, *ssa.Select, *ssa.Panic, *ssa.RunDefers:
+	case *ssa.Defer:
+		// taking and releasing a mutex around reads is not an effect the facts care about
+		return isMutexOp(&x.Call)
+	case *ssa.RunDefers:
+		return onlyMutexDefers(x.Parent())
+	case *ssa.Send, *ssa.Go, *ssa.Select, *ssa.Panic:
 		return false
 	case *ssa.UnOp:
 		if x.Op == token.ARROW {
@@ -281,6 +313,9 @@ func (a *Analyzer) instrEffectFree(in ssa.Instruction, assume map[*ssa.Function]
 		if c.IsInvoke() {
 			pure, known := spiMethodPure(c.Method)
 			return known && pure
+		}
+		if isMutexOp(c) {
+			return true
 		}
 		if f := c.StaticCallee(); f != nil {
 			if f.Blocks == nil || !inLibraryScope(funcPkgPath(f)) {
@@ -319,7 +354,7 @@ func (a *Analyzer) computeEffects() {
 					}
 				}
 			}
-			if f.Recover != nil {
+			if f.Recover != nil && !onlyMutexDefers(f) {
 				ok = false
 			}
 			if !ok {
@@ -399,7 +434,7 @@ func (a *Analyzer) computeValueSummaryOpt(f *ssa.Function, force bool) *Term {
 	if f.Blocks == nil || !inLibraryScope(funcPkgPath(f)) || isSpecTypesPkg(funcPkgPath(f)) || (keepNamed[shortName(f)] && !force) {
 		return nil
 	}
-	if f.Recover != nil || f.Signature.Results().Len() == 0 {
+	if (f.Recover != nil && !onlyMutexDefers(f)) || f.Signature.Results().Len() == 0 {
 		return nil
 	}
 	pure := a.effectFree[f]
@@ -585,6 +620,7 @@ func mkAnd(xs []*Term) *Term {
 			out = append(out, x)
 		}
 	}
+	out = dedupTerms(out)
 	if len(out) == 0 {
 		return tTrue
 	}
@@ -592,6 +628,21 @@ func mkAnd(xs []*Term) *Term {
 		return out[0]
 	}
 	return T("and", "", out...)
+}
+
+func dedupTerms(xs []*Term) []*Term {
+	if len(xs) < 2 {
+		return xs
+	}
+	seen := map[string]bool{}
+	out := xs[:0:0]
+	for _, x := range xs {
+		if !seen[x.Key()] {
+			seen[x.Key()] = true
+			out = append(out, x)
+		}
+	}
+	return out
 }
 
 func mkOr(xs []*Term) *Term {
@@ -609,6 +660,7 @@ func mkOr(xs []*Term) *Term {
 			out = append(out, x)
 		}
 	}
+	out = dedupTerms(out)
 	if len(out) == 0 {
 		return tFalse
 	}
